@@ -3,6 +3,31 @@
 import json
 
 CLAIMED = {
+ "C12": dict(
+   text="Machine-checked proof (Coq) about the executable model of isotonic_regression for all four functionals, all levels, both directions, with NO hypothesis beyond 'the call returned a result': "
+        "the full block contract (length, range within data, r from 0 to n strictly increasing, constant inside and different across blocks; r is determined by the values), monotone fit, "
+        "already-monotone input unchanged, idempotence, exact commutation with reversal (exceptions included), positive affine equivariance, weight-scale invariance, None = unit weights, "
+        "and integer weights = repeated observations (mean, expectile; values). Tie: skeleton+leaves of pava/gpava/isotonic_regression/quantile_lower/quantile_upper and correspondence over all functionals "
+        "with exact block-vector comparison on the dyadic-exact stream.",
+   note="Partial: 'inputs are never modified' is observed (byte comparison of the caller's arrays around every call), not proved; replication is proved for the values only. Equalities of values are Qeq. "
+        "All theorems are closed under the global context except replication (standard real-number axioms).",
+   technique="Coq proof (certificate invariant, lock-step simulation for equivariances, uniqueness for replication) + skeleton/leaf translation + vm_compute correspondence", ref="4 C12"),
+ "C15": dict(
+   text="Machine-checked proof (Coq, classical reals + Coquelicot) about ElementaryScore.score_per_obs translated from source on every run: >= 0 and 0 at y=z for every eta, observation and prediction; "
+        "minimised in expectation by the sample's functional for EVERY eta incl. data values (mean, expectile, quantile); integrals over eta equal half the squared error, the pinball loss and half the degree-2 expectile score "
+        "(is_RInt); Murphy curve non-negative with area equal to the average score. A genuine defect was found (quantile/median negative at eta = y_obs > y_pred) and repaired in /repo (fix 42d574f); "
+        "the refutation of the old formula is kept as a theorem.",
+   note="As C04 (translator + round trip, judge grid includes eta on data values and midpoint integration). Axioms: standard real-number/classical axioms only (also under Coquelicot).",
+   technique="Coq proof over R incl. Coquelicot integrals + translation from source + round trip", ref="4 C15"),
+ "C16": dict(
+   text="Machine-checked proof (Coq, world Q, axiom-free) about the executable model of compute_partial_dependence with an arbitrary row-wise predictor: the stacked computation (tile/repeat/assign/one batch prediction/reshape/average) "
+        "equals the definitional partial dependence, the rows handed to the predictor differ from the sampled rows in the feature column only, rows and weights are sub-sampled by the same indices, one value per grid point, weight-scale invariance. "
+        "Tie: whole-function skeletons of compute_partial_dependence / safe_index_rows / safe_assign_column and a correspondence run in which every matrix the real function hands to the predictor is compared exactly with the model's. "
+        "A genuine defect (float grid truncated into integer columns) was found and repaired in /repo (fix 6654639).",
+   note="Partial (harness observations, not theorems): caller's X/grid/weights unchanged; the subsample is numpy's seeded draw without replacement (oracle: indices drawn by the harness with the documented call); equal seeds give equal results; "
+        "containers (float/int ndarray, list of rows, polars frame) are a correspondence dimension. The predictor is assumed row-wise.",
+   technique="Coq proof (list induction) + whole-function skeleton match + exact correspondence incl. recorded predictor inputs", ref="4 C16"),
+
  "C04": dict(
    text="Machine-checked proof (Coq, classical reals) for ALL real degrees, levels in (0,1) and pairs (y,z): the per-observation score functions, "
         "as regenerated from scoring.py by the fail-closed translator on every run (gen/Gen_scoring.v), raise ValueError exactly outside the documented domain, "
